@@ -63,8 +63,12 @@ where
     let req: HtlcAcceptedRequest = match serde_json::from_value(v) {
         Ok(req) => req,
         Err(e) => {
+            // Core lightning treats an error response to a hook as fatal. The
+            // onion payload is sender-controlled, so an htlc that can't be
+            // decoded here must not be answered with an error. It is not a
+            // trampoline htlc, so let core lightning handle it.
             error!("failed to deserialize htlc accepted request: {:?}", e);
-            return Err(e.into());
+            return Ok(serde_json::json!({"result": "continue"}));
         }
     };
     let resp = plugin.state().htlc_manager.handle_htlc(&req).await;
